@@ -64,6 +64,7 @@ pub mod site {
     pub const VS_WRITER_AFTER_CHECK: u32 = 500;
     pub const VS_WRITER_AFTER_VERSION: u32 = 501;
     pub const VS_WRITER_AFTER_INCREMENT: u32 = 502;
+    pub const VS_READER_BEFORE_LOCK: u32 = 509;
     pub const VS_READER_AFTER_VERSION: u32 = 510;
     pub const VS_READER_AFTER_INCREMENT: u32 = 511;
     pub const VS_ADVANCE_AFTER_LOAD1: u32 = 520;
